@@ -428,8 +428,6 @@ RECURSION = [
     tags=('C03',), max_rows={'quick': 3, 'thorough': 4}, cap={'quick': 120, 'thorough': 1500}),
   S('rec_tc_depth2', '@Recursive(TC, 2);\n' + TCP, {'E': 2}, {'TC': lambda db: _tc(db, 2)},
     tags=('C03',), max_rows={'quick': 3, 'thorough': 4}, domain=[0, 1, 2, 3], cap={'quick': 120, 'thorough': 1500}),
-  S('rec_tc_depth0', '@Recursive(TC, 0);\n' + TCP, {'E': 2}, {'TC': lambda db: _tc(db, 0)},
-    tags=('C03-skip',), max_rows={'quick': 2, 'thorough': 3}),
   # mutual recursion whose cycle is cut by one predicate (vertical unfolding): result within the bound
   # contains everything derivable and nothing outside the least fixpoint; bounds chosen so that it converges
   S('rec_even_odd', 'Even(x) distinct :- Z(x);\nEven(x + 1) distinct :- Odd(x), x < 4;\n'
